@@ -6,8 +6,9 @@
 (* each object incl. self, dangling ref) while the rest of the document is a fixed skeleton    *)
 (* that lets the real query reach that walker.  One behaviour = one walker run on one document;*)
 (* TLC checks that every run reaches a Final pc within its variant (Bounded, Terminates) and,  *)
-(* with the Dev_ switches off ("as repaired"), that the outcome is Total.  With the switches   *)
-(* on ("as the code is") the non-Total outcomes are the findings; every finished run is        *)
+(* with the Dev_ switches off ("as the code is" since the nine C13 fix: commits), that the      *)
+(* outcome is Total.  With the switches on (the repaired defects seeded back: cfg *_cex, a      *)
+(* negative control) the non-Total outcomes are the former findings; every finished run is      *)
 (* printed as a REPLAY line (document, walker, predicted outcome and class) for the harness.   *)
 EXTENDS Queries, TLC, Json
 
